@@ -1,5 +1,7 @@
 import MlModel.Model.Stage
 import MlModel.Lemmas.StageInv
+import MlModel.Generated.StageTurn
+import MlModel.Lemmas.StageTurn
 /-!
 # C16 — interleaved stages: enqueuer registration happens-before the worker's pulling
 
@@ -94,5 +96,95 @@ example : ∃ s, Reach {} (St.init [10] 2) s ∧
   reach_witness
     [.produce, .closeInput, .schedule 0, .schedule 1, .created 0, .pull 0, .pullEnd 0, .forward 0, .finish 0,
      .consume, .consumerEnd, .created 1] _ (by decide)
+
+/-! ## The configuration of the code, read off the source (package C16S)
+
+`Generated/StageTurn.lean` is written on every check run by `translate/stage_turn.py` (Python `ast`) from
+`CourierClient.async_iter` and `AsyncIteratorQueue.async_enqueue_from_iterator`. -/
+
+/-- **No suspension point between the kick-off RPC and `_start_enqueue()`** (generated obligation): in
+`async_iter` the kick-off statement `self.call(.., return_immediately=True)` and everything after it contain no
+`await` / `async for` / `async with`; in `async_enqueue_from_iterator` the statement that awaits `iterator`
+contains that one suspension point only, `self._start_enqueue()` follows it at the top level of the body and no
+suspension point lies between them.  Before the kick-off there is one (phase `creating` of the model).  This
+is the hypothesis `ackAwait = false` of the theorems above, resp. the turn atomicity of `stepT`; the seeded
+change C16-m1 (`await` the acknowledgement) makes `awaitsAfterKickoff = 1` and breaks this theorem. -/
+theorem C16_stage_turn_no_suspension_point :
+    Generated.StageTurn.kickoffFound = true ∧ Generated.StageTurn.isCoroutine = true ∧
+    Generated.StageTurn.registerAfterIterator = true ∧
+    Generated.StageTurn.awaitsAfterKickoff = 0 ∧ Generated.StageTurn.awaitsInIteratorStmt = 1 ∧
+    Generated.StageTurn.awaitsBeforeRegister = 0 ∧ 1 ≤ Generated.StageTurn.awaitsBeforeKickoff := by
+  decide
+
+/-- **The fused step is a turn of the thread-granular LTS.**  Whenever the `ackAwait = false` LTS takes its
+`created w` step (kick-off and registration in one step) from a state in which no coroutine is mid-turn, the
+thread-granular LTS `stepT` takes `created w` (kick-off) and then `ack w` (registration) and reaches the same
+state: every execution of the LTS the theorems above are about is an execution of `stepT`. -/
+theorem C16_stage_fused_is_turn {w : Nat} {s s' : St} (hm : s.midTurn = false)
+    (h : step { ackAwait := false } s (.created w) = some s') :
+    ∃ m, stepT s (.created w) = some m ∧ stepT m (.ack w) = some s' := by
+  simp only [step] at h
+  cases hx : s.ws[w]? with
+  | none => simp [hx] at h
+  | some x =>
+    simp only [hx] at h
+    by_cases hp : x.phase = .creating
+    · simp only [hp, if_true] at h
+      simp at h
+      subst h
+      have hlt : w < s.ws.length := by
+        rcases Nat.lt_or_ge w s.ws.length with h1 | h1
+        · exact h1
+        · simp [List.getElem?_eq_none h1] at hx
+      refine ⟨{ s with ws := s.ws.set w { x with phase := .kicked, pulling := true } }, ?_, ?_⟩
+      · simp [stepT, hm, step, hx, hp]
+      · simp [stepT, Label.isLoop, step, hlt, St.register]
+    · simp [hp] at h
+
+/-! ### Thread granularity (`stepT`): what is proved and what is not
+
+NOT PROVED (full statement, kept visible):
+
+    theorem C16_stage_turn_no_lost_batch (h : ReachT (St.init all n) s) :
+        (s.enqueueDone = true → s.resultQ = [] → s.consumed.Perm all) ∧ (s.consumerDone = true → s.consumed.Perm all)
+
+i.e. no lost batch for the thread-granular LTS (its conservation half IS proved: `C16_stage_turn_conservation`) in which a worker may already pull between its
+kick-off and its registration.  The invariant needed on top of `Lemmas/StageInv.lean` is "a `kicked` worker with
+a non-empty hand implies `stop = 0`" (`finish` is an event-loop step, so it cannot happen mid-turn; once
+`stop ≠ 0` some worker has seen the end of the input and a kicked worker can pull nothing).  Evidence short of
+a proof: the driver's exhaustive `explore` (mode "turn") of all schedules for ≤ 3 workers / ≤ 3 batches ends in
+complete terminals only, and every projected real run is accepted by `stepT`.  The theorems above
+(`ackAwait = false`) cover the executions in which no real thread runs mid-turn (`C16_stage_fused_is_turn`). -/
+
+/-- **Conservation at thread granularity.**  In every state the thread-granular LTS `stepT` can reach - a worker
+may already have pulled between its kick-off and its registration - every batch the previous stage produces is in
+exactly one place (not produced, stage input, a worker's hands, result queue, consumed): nothing is duplicated
+and nothing disappears.  (What is still missing for `stepT` is the other half of `C16_stage_no_lost_batch`: that a
+consumer which STOPS has seen everything.) -/
+theorem C16_stage_turn_conservation (h : ReachT (St.init all n) s) :
+    (s.toProduce ++ s.inp ++ hands s.ws ++ s.resultQ ++ s.consumed).Perm all :=
+  cons_reachT h
+
+/-- conservation holds in EVERY configuration of the LTS, also with a suspension point between kick-off and
+registration (`ackAwait = true`): what that configuration breaks is not conservation but the consumer's stopping
+rule (`Witness/C16Stage.lean`: the consumer stops while a batch is still in a worker's hands) -/
+theorem C16_stage_conservation_any_cfg (h : Reach c (St.init all n) s) :
+    (s.toProduce ++ s.inp ++ hands s.ws ++ s.resultQ ++ s.consumed).Perm all :=
+  cons_reach_any h
+
+/-- test (non-vacuity of the thread-granular LTS): the worker pulls BETWEEN kick-off and registration, the
+consumer still receives everything -/
+example : (runT (St.init [10, 11] 2) [.produce, .produce, .closeInput, .schedule 0, .schedule 1, .created 1, .pull 1,
+      .ack 1, .created 0, .pull 0, .pullEnd 0, .pullEnd 1, .ack 0, .forward 0, .forward 1, .finish 0, .finish 1,
+      .consume, .consume, .consumerEnd]).map (fun s => s.consumerDone && s.consumed == [11, 10]) = some true := by
+  decide
+
+/-- test: the schedule by which the `ackAwait = true` LTS loses a batch (`Witness/C16Stage.lean`) is NOT an
+execution of the thread-granular LTS - it needs event-loop steps of worker 0 while worker 1 is mid-turn -/
+theorem C16_stage_turn_rejects_loss_witness :
+    runT (St.init [10, 11] 2)
+      [.produce, .produce, .closeInput, .schedule 0, .schedule 1, .created 1, .created 0, .ack 0, .pull 0, .pull 1,
+       .pullEnd 0, .forward 0, .finish 0, .consume, .consumerEnd] = none := by
+  decide
 
 end MlModel.C16
